@@ -45,8 +45,9 @@ def mc_configs(quick: bool) -> List[Tuple[str, Dict[str, Any], bool]]:
         ("[known finding, must fail] collector || Table.append_data(files) of a file built beforehand (no marker is written for it)",
          b(Prog=Raw("<- Prog_GPre"), PreFiles={971}, **G1), False),
     ]
-    if not quick:
+    if True:
         c += [("two collectors || append", b(Prog=Raw("<- Prog_GG"), **dict(G1, Actors=Raw("<- AGG"), Role=Raw("<- Role_GG"), Idx=Raw("<- Idx_GG"), Handle=Raw("<- Sep_GG"), MaxClock=2)), True)]
+    if not quick:
         c += [("collector || two appenders (retry)", b(Prog=Raw("<- Prog_G2"), **dict(G2, MaxClock=2)), True),
               ("collector || append, one committer fault", b(Prog=Raw("<- Prog_GApp"), FaultKinds={"before", "async"}, FaultBudget=1, **G1), True)]
     return c
